@@ -459,6 +459,10 @@ func (w *walker) call(c *ast.CallExpr) {
 		repl = fmt.Sprintf("vsimrt.OnceDo((%s).Do, %s)", x, w.text(c.Args[0]))
 		// the function literal argument (if any) is re-emitted as text, so it is
 		// not instrumented; that is fine: it runs with pre-emption disabled.
+	case pkg == "sync" && recvName == "Pool" && (obj.Name() == "Get" || obj.Name() == "Put"):
+		// not blocking, but under -race the runtime drops a random quarter of the Puts:
+		// the library's control flow is then not a function of the seed
+		w.uncontrolled("sync.Pool."+obj.Name(), c.Pos())
 	case pkg == "sync" && (recvName == "Cond" || recvName == "WaitGroup") && obj.Name() == "Wait":
 		w.uncontrolled("sync."+recvName+".Wait", c.Pos())
 	case pkg == "sync" && recvName == "" && strings.HasPrefix(obj.Name(), "Once"):
